@@ -30,6 +30,8 @@ type c08In struct {
 	Nonce  model.Bytes `json:"ike_nonces,omitempty"`
 	Secret model.Bytes `json:"ike_secret,omitempty"`
 	Steps  []c08Step   `json:"steps"`
+	// ChildViaProposal: the Child SA descriptors come from NewChildSAKeyByProposal instead of StrToKType
+	ChildViaProposal bool `json:"child_via_proposal"`
 }
 
 func c08NewSA(in c08In) (*security.IKESAKey, []byte, error) {
@@ -56,6 +58,7 @@ var c08History = probe.Define("C08", "history", func(t *rapid.T) c08In {
 	} else {
 		in.SKd = gen.Fill(t, "skd", ref.Prfs[in.Prf].KeyLen)
 	}
+	in.ChildViaProposal = rapid.IntRange(0, 2).Draw(t, "childviaproposal") == 2
 	n := gen.Len(t, "nsteps", 1, 200, 1, 2, 100, 200)
 	for i := 0; i < n; i++ {
 		in.Steps = append(in.Steps, c08Step{Encr: rapid.IntRange(0, 2).Draw(t, "encr"), Integ: rapid.IntRange(0, 3).Draw(t, "integ"),
@@ -63,6 +66,8 @@ var c08History = probe.Define("C08", "history", func(t *rapid.T) c08In {
 	}
 	return in
 }, func(in c08In) probe.Outcome {
+	childViaProposal = in.ChildViaProposal
+	defer func() { childViaProposal = false }()
 	L, skd, err := c08NewSA(in)
 	if err != nil {
 		return probe.Fail("building the IKE SA: %v", err)
@@ -112,6 +117,9 @@ var c08History = probe.Define("C08", "history", func(t *rapid.T) c08In {
 	}
 	if in.ViaIKE {
 		labels = append(labels, "sk_d-from-ike-derivation")
+	}
+	if in.ChildViaProposal {
+		labels = append(labels, "child-descriptors-via-proposal")
 	}
 	labels = append(labels, fmt.Sprintf("steps>=2:%v", len(in.Steps) >= 2))
 	return probe.Outcome{NonTrivial: len(in.Steps) >= 2, Labels: labels}
